@@ -17,9 +17,9 @@ Definition ex_run (pl : plan) := run ex_cfg pl 9%N ex_clear [] ex_calls.
 
 (* the un-faulted handshake completes: Ok, Received|Secure|Authn|Ready, 10 operations *)
 Example ex_unfaulted_ok :
-  fst (ex_run (mkPlan FNone None true true true)) = ROk tt /\
-  w_bits (snd (ex_run (mkPlan FNone None true true true))) = 15%N /\
-  w_ops (snd (ex_run (mkPlan FNone None true true true))) = 10.
+  fst (ex_run (mkPlan FNone CGeneric None true true false true)) = ROk tt /\
+  w_bits (snd (ex_run (mkPlan FNone CGeneric None true true false true))) = 15%N /\
+  w_ops (snd (ex_run (mkPlan FNone CGeneric None true true false true))) = 10.
 Proof. vm_compute. repeat split. Qed.
 
 (* every cut point, every transient fault, every blocked and every idle cancellation of this
@@ -28,20 +28,20 @@ Proof. vm_compute. repeat split. Qed.
 Definition closed (pl : plan) : bool :=
   match fst (ex_run pl) with RErr => true | _ => false end && negb (is_ready (w_bits (snd (ex_run pl)))).
 
-Example ex_every_cut_fails : forallb (fun k => closed (mkPlan (FCut k) None true true true)) (seq 0 10) = true.
+Example ex_every_cut_fails : forallb (fun k => closed (mkPlan (FCut k) CGeneric None true true false true)) (seq 0 10) = true.
 Proof. vm_compute. reflexivity. Qed.
-Example ex_every_transient_fails : forallb (fun k => closed (mkPlan (FTransient k) None true true true)) (seq 0 10) = true.
+Example ex_every_transient_fails : forallb (fun k => closed (mkPlan (FTransient k) CGeneric None true true false true)) (seq 0 10) = true.
 Proof. vm_compute. reflexivity. Qed.
-Example ex_every_blocked_cancel_fails : forallb (fun k => closed (mkPlan FNone (Some k) true true true)) (seq 0 10) = true.
+Example ex_every_blocked_cancel_fails : forallb (fun k => closed (mkPlan FNone CGeneric (Some k) true true false true)) (seq 0 10) = true.
 Proof. vm_compute. reflexivity. Qed.
-Example ex_every_idle_cancel_fails : forallb (fun c => closed (mkPlan FNone (Some c) false true true)) (seq 0 10) = true.
+Example ex_every_idle_cancel_fails : forallb (fun c => closed (mkPlan FNone CGeneric (Some c) false true false true)) (seq 0 10) = true.
 Proof. vm_compute. reflexivity. Qed.
 
 (* former witness 1 (sasl.go dropped the flush error of <success/>): exactly operation 4, the
    Write of <success/>, fails. Was Ok/Ready; now an error with Received|Secure only. *)
 Example ex_transient_at_success_flush :
-  fst (ex_run (mkPlan (FTransient 4) None true true true)) = RErr /\
-  w_bits (snd (ex_run (mkPlan (FTransient 4) None true true true))) = 9%N.
+  fst (ex_run (mkPlan (FTransient 4) CGeneric None true true false true)) = RErr /\
+  w_bits (snd (ex_run (mkPlan (FTransient 4) CGeneric None true true false true))) = 9%N.
 Proof. vm_compute. split; reflexivity. Qed.
 
 (* former witness 2 (features.go kept the Ready bit of a voluntary feature): a voluntary
@@ -52,7 +52,7 @@ Definition ex2_cfg : config :=
 Definition ex2_clear : list sitem :=
   [Brk; T Decl; T (Open (KHdr true true true));
    Brk; T (Open KFeatures); T (Open (KFeat 0 false false)); T Close; T (Open (KFeat 1 true false)); T Close; T Close].
-Definition ex2_run := run ex2_cfg (mkPlan FNone None true true true) 0%N ex2_clear [] [VParse false false; VParse true false; VChoice 0; VOut 4 false false; VChoice 1; VOut 0 false true].
+Definition ex2_run := run ex2_cfg (mkPlan FNone CGeneric None true true false true) 0%N ex2_clear [] [VParse false false; VParse true false; VChoice 0; VOut 4 false false; VChoice 1; VOut 0 false true].
 Example ex_voluntary_ready_then_failure :
   fst ex2_run = RErr /\ is_ready (w_bits (snd ex2_run)) = false /\
   In (ENegOk 0 4%N RSNone) (w_trace (snd ex2_run)).
@@ -61,8 +61,8 @@ Proof. vm_compute. repeat split. tauto. Qed.
 (* ... and that run shows what a failed Negotiate leaves in the trace: two started, one completed *)
 Example ex_failed_negotiate_unbalanced :
   starts (w_trace (snd ex2_run)) = 2 /\ oks (w_trace (snd ex2_run)) = 1 /\
-  starts (w_trace (snd (ex_run (mkPlan FNone None true true true)))) = 2 /\
-  oks (w_trace (snd (ex_run (mkPlan FNone None true true true)))) = 2.
+  starts (w_trace (snd (ex_run (mkPlan FNone CGeneric None true true false true)))) = 2 /\
+  oks (w_trace (snd (ex_run (mkPlan FNone CGeneric None true true false true)))) = 2.
 Proof. vm_compute. repeat split. Qed.
 
 (* former witness 3 (session.go ignored a cancellation after the last stream header):
@@ -70,7 +70,7 @@ Proof. vm_compute. repeat split. Qed.
    entered. Was Ok; now an error. *)
 Definition ex3_clear : list sitem :=
   [Brk; T Decl; T (Open (KHdr true true true)); Brk; T (Open KFeatures); T Close].
-Definition ex3_run (c : option nat) := run (mkCfg NStd false []) (mkPlan FNone c false false true) 0%N ex3_clear [] [].
+Definition ex3_run (c : option nat) := run (mkCfg NStd false []) (mkPlan FNone CGeneric c false false false true) 0%N ex3_clear [] [].
 Example ex_cancel_after_last_header :
   fst (ex3_run None) = ROk tt /\ w_ops (snd (ex3_run None)) = 3 /\
   fst (ex3_run (Some 1)) = RErr /\ fst (ex3_run (Some 2)) = RErr.
@@ -79,8 +79,8 @@ Proof. vm_compute. repeat split. Qed.
 (* bind.go's receiving side: the callback answers with a stanza error: the error IQ is
    written, and the session is not reported ready *)
 Example ex_bind_stanza_error :
-  fst (run ex_cfg (mkPlan FNone None true true true) 9%N ex_clear [] [VStep false SNone; VBind BStanza]) = RErr /\
-  In (EWrite WBindRes true) (w_trace (snd (run ex_cfg (mkPlan FNone None true true true) 9%N ex_clear [] [VStep false SNone; VBind BStanza]))).
+  fst (run ex_cfg (mkPlan FNone CGeneric None true true false true) 9%N ex_clear [] [VStep false SNone; VBind BStanza]) = RErr /\
+  In (EWrite WBindRes true) (w_trace (snd (run ex_cfg (mkPlan FNone CGeneric None true true false true) 9%N ex_clear [] [VStep false SNone; VBind BStanza]))).
 Proof. vm_compute. split; [reflexivity | tauto]. Qed.
 
 (* a step that fails by itself, without any connection fault: the List step of a VOLUNTARY
@@ -92,17 +92,17 @@ Definition ex4_cfg : config :=
 Definition ex4_clear : list sitem :=
   [Brk; T Decl; T (Open (KHdr true true false)); Brk; T (Open (KSel 1 ECustom)); T Close].
 Example ex_voluntary_list_fails :
-  fst (run ex4_cfg (mkPlan FNone None true true true) 8%N ex4_clear [] [VList false true]) = RErr /\
+  fst (run ex4_cfg (mkPlan FNone CGeneric None true true false true) 8%N ex4_clear [] [VList false true]) = RErr /\
   (* had the error been dropped, the handshake would have completed: *)
-  fst (run ex4_cfg (mkPlan FNone None true true true) 8%N ex4_clear [] [VList false false; VList true false; VOut 4 false false]) = ROk tt.
+  fst (run ex4_cfg (mkPlan FNone CGeneric None true true false true) 8%N ex4_clear [] [VList false false; VList true false; VOut 4 false false]) = ROk tt.
 Proof. vm_compute. split; reflexivity. Qed.
 
 Definition ex5_clear : list sitem :=
   [Brk; T Decl; T (Open (KHdr true true true));
    Brk; T (Open KFeatures); T (Open (KFeat 0 false true)); T Close; T (Open (KFeat 1 true false)); T Close; T Close].
 Example ex_voluntary_parse_fails :
-  fst (run ex4_cfg (mkPlan FNone None true true true) 0%N ex5_clear [] [VParse false true]) = RErr /\
-  fst (run ex4_cfg (mkPlan FNone None true true true) 0%N ex5_clear [] [VParse false false; VParse true false; VChoice 0; VOut 0 false false; VChoice 1; VOut 4 false false]) = ROk tt.
+  fst (run ex4_cfg (mkPlan FNone CGeneric None true true false true) 0%N ex5_clear [] [VParse false true]) = RErr /\
+  fst (run ex4_cfg (mkPlan FNone CGeneric None true true false true) 0%N ex5_clear [] [VParse false false; VParse true false; VChoice 0; VOut 0 false false; VChoice 1; VOut 4 false false]) = ROk tt.
 Proof. vm_compute. split; reflexivity. Qed.
 
 (* the built-in features' masks are the ones the model uses (gen/NegTables.v is regenerated
